@@ -286,11 +286,17 @@ sg4::ActorPtr spawn(const std::string& id)
   sp.created++;
   int creation    = sp.created;
   std::string aid = sp.id + (creation > 1 ? "#" + std::to_string(creation) : "");
-  auto a          = sg4::Actor::init(aid, hosts.at(sp.host));
-  if (sp.stack > 0)
-    a->set_stacksize(sp.stack);
   ActorSpec* spp = &sp;
-  a->start([spp, aid]() { actor_body(spp, aid); });
+  sg4::ActorPtr a;
+  if (sp.stack > 0) {
+    a = sg4::Actor::init(aid, hosts.at(sp.host));
+    a->set_stacksize(sp.stack);
+    a->start([spp, aid]() { actor_body(spp, aid); });
+  } else {
+    // the one-simcall creation: the only one the model checker observes (ACTOR_CREATE transition); with init()+start()
+    // the pids of the children of two racing creators depend on an order the checker does not see
+    a = hosts.at(sp.host)->add_actor(aid, [spp, aid]() { actor_body(spp, aid); });
+  }
   if (sp.autorestart)
     a->set_auto_restart(true); // after start(): the restart arguments are captured from the running actor
   pid2aid[a->get_pid()] = aid;
